@@ -7,12 +7,17 @@ ASSUME_COMMON = [
 ]
 
 
-def hist(rule, quick, thorough, floor=50, extra_assume=(), level="exploration"):
+def hist(rule, quick, thorough, floor=50, extra_assume=(), level="exploration", mode=""):
     qc, qb = quick
     tc, tb = thorough
     return {
         "common": {"level": level, "rule": rule, "assumptions": ASSUME_COMMON + list(extra_assume),
                    "floor": floor, "shards": 16},
+        "quick": {"count": qc, "budget_s": qb, "watchdog_s": qb * 20 + 120},
+        "thorough": {"count": tc, "budget_s": tb, "watchdog_s": tb * 10 + 300},
+    } if not mode else {
+        "common": {"level": level, "rule": rule, "assumptions": ASSUME_COMMON + list(extra_assume),
+                   "floor": floor, "shards": 16, "mode": mode},
         "quick": {"count": qc, "budget_s": qb, "watchdog_s": qb * 20 + 120},
         "thorough": {"count": tc, "budget_s": tb, "watchdog_s": tb * 10 + 300},
     }
@@ -48,4 +53,57 @@ PLANS = {
         "compared with the reference model after every call + drain + slot-fill probe; non-trivial = >=15 collections "
         "in the history (one full wrap of the 14 group slots)",
         (200, 15), (1500, 200), floor=30),
+    "C15": hist(
+        "byte strings of length 0..=12 (18 thorough) x 6 contents x up to 5 representations (from_vec, Hex::Vector, Hex::Bytes with "
+        "0x00 / 0xFF / random padding); every accessor, every index in 0..=len+2 and usize::MAX(-1), all six range kinds over every "
+        "(start,end) pair, equality across representations, from_str(print), i64/f64 conversions; oracle = the same operation on the "
+        "byte slice incl. panic/no-panic; non-trivial = distinct (string, representation, accessor, index) tuples at or across a boundary "
+        "(len in {0,7,8,9}, index in {len-1,len,len+1})",
+        (1, 60), (1, 300), floor=1000),
+    "C16": hist(
+        "all pairs of lengths 0..=12 (20 thorough) x contents x all representations of both operands; oracle = Vec concatenation, "
+        "operands unchanged; non-trivial = distinct pairs whose left operand or total length lies at the 8-byte boundary",
+        (1, 60), (1, 300), floor=1000),
+    "C17": hist(
+        "all strings of length 0..=4 (5 thorough) over a 12-character alphabet (ASCII, digits, signs, alpha, 2- and 4-byte characters) "
+        "plus sampled strings of 5..=10 characters; canonical label values Greek/Alpha/Str; oracle = the string itself (parse-print, "
+        "print-parse, rejection, kid() lookup under parsed vs built label); non-trivial = distinct texts of boundary length "
+        "(1,2,7,8,9 characters) or alpha-prefixed that the statement makes a demand on, and every canonical value",
+        (1, 60), (1, 300), floor=1000),
+    "C08": hist(
+        "mixed histories with save+load at random points (often repeatedly); the copy not continued becomes a twin that receives "
+        "every later call in lock-step (return values and keys/kids/kid/v_print digests compared after every call, lock-step drain at the "
+        "end); full text digests + hook snapshot compared at load time; next_id() on the reloaded graph checked against 'restart from the "
+        "lowest absent id'; non-trivial = image of a graph with a group holding unread heap-encoded data and an absent slot with history, "
+        "followed by a continuation that collects something",
+        (700, 14), (12000, 150), floor=30),
+    "C09": hist(
+        "images of graphs reached by mixed/cross/full histories (N in 1..=16, cap 2..=256); for every image EVERY prefix length "
+        "0 <= k < size is written and loaded (direct truncation), plus ~30-60 real partial writes of save() per image produced by the kernel "
+        "under a lowered RLIMIT_FSIZE; verdict per load: Err required, Ok or panic refutes; non-trivial = distinct images containing a "
+        "heap-encoded datum, a vertex with >=2 edges and a live group",
+        (14, 14), (220, 200), floor=10, level="fault_enumeration"),
+    "C10": hist(
+        "mixed histories with clone() at random points; the copy not continued becomes a twin in lock-step (every return value incl. "
+        "next_id and merge-created ids, digests after every call, lock-step drain); frozen copies must not move while the other graph "
+        "is mutated, and mutating a copy must not move the source; non-trivial = clone taken while a group holds unread heap data and the "
+        "allocator is ahead of the lowest absent id, with a continuation that collects and allocates",
+        (700, 14), (12000, 150), floor=30),
+    "C13": hist(
+        "cyclic / shared-target / many-label graphs reached by cross, full, labels and mixed histories; every ~6 calls and at the end "
+        "slices from present start vertices under 7 predicates (accept-all, reject-all, 30/50/80 % tables, label-based, not-into-one-vertex); "
+        "oracle = closure computed from the source's kids(); predicate-call bound as termination check; non-trivial = slice over a cyclic "
+        "reachable part with a rejected edge whose target is kept through another edge",
+        (1500, 12), (25000, 150), mode="sink"),
+    "C18": hist(
+        "graphs reached by mixed/cross/re-add histories after collections; to_xml() parsed with sxd-document and to_dot() with a line "
+        "grammar, compared with keys()/kids()/model data every ~8 calls; canonicity by a twin build of the same abstract graph (other "
+        "insertion orders, other N and capacity, detours through collected ids, overwritten data) compared byte for byte; non-trivial = "
+        "graph with a collected id, a never-added id and a vertex with >=2 edges and data",
+        (1500, 12), (25000, 150)),
+    "C20": hist(
+        "graphs reached by mixed/cross/full histories; inspect() from present start vertices parsed back by indentation and compared "
+        "edge-for-edge with kids() of every reachable vertex (exactly once), line-count bound; Debug/Display entries and v_print() parsed "
+        "and compared with keys()/kids()/model data; non-trivial = start vertex from which a cycle and a vertex of in-degree >= 2 are reachable",
+        (1500, 12), (25000, 150), mode="sink"),
 }
